@@ -190,7 +190,8 @@ func loadAddr(v ssa.Value) ssa.Value {
 	return nil
 }
 
-func runC15(c *Ctx) {
+// c15AddGuardedRule: the add-guarded rule (shared with C07); returns the hash function the guards use.
+func c15AddGuardedRule(c *Ctx) *ssa.Function {
 	fns := c.moduleFuncs(isRuntimePkg)
 
 	c.R.Rule("add-guarded", "every Cache[string].Add(ctx,k,v) in the module is edge-dominated by computeQueryHash(v') == k' over the same access paths as v,k with no store in between; the hash function is hex(sha256(arg))", 2)
@@ -243,6 +244,12 @@ func runC15(c *Ctx) {
 		ok, why := isHexSha256(hashFn)
 		c.R.Check(ok, shortFn(hashFn)+"/is-hex-sha256", c.pos(hashFn.Pos()), "returns hex.EncodeToString(sha256.Sum256([]byte(arg))[:])", "the hash function guarding Cache.Add is not hex(sha256(arg)): "+why)
 	}
+	return hashFn
+}
+
+func runC15(c *Ctx) {
+	fns := c.moduleFuncs(isRuntimePkg)
+	hashFn := c15AddGuardedRule(c)
 
 	c.R.Rule("mismatch-rejected", "the edge on which the computed hash differs from the client's hash only reaches returns of a non-nil error (nothing is registered or executed)", 1)
 	if hashFn != nil {
